@@ -50,6 +50,13 @@ func init() {
 		Shrink:     shrinkC08,
 		Exhaustive: func(tier string) bool { return tier == "thorough" },
 		Finish: func(st *Stats, cov map[string]any, tier string) string {
+			// vacuity guard: every select family must have produced unlimited results to slice
+			// (a template the engine rejects, or whose evaluation fails, would be judged never)
+			for _, f := range c08Families {
+				if !strings.HasPrefix(f, "delete") && st.Counters["family:"+f] > 50 && st.Counters["judged_nonempty:"+f] == 0 {
+					return "family " + f + " never produced a non-empty unlimited result: its cases are vacuous"
+				}
+			}
 			if tier == "thorough" {
 				cov["grid_points"] = len(c08Grid())
 				cov["replicas_per_grid_point"] = c08Replicas
@@ -193,7 +200,7 @@ func c08Build(r *Rng, p gridPt) *Scenario {
 			lc.OrderCols = []int{0}
 		}
 	case "aggregate-ordered-keyexpr":
-		// groups derived from the key by an expression that is not monotone in the key:
+		// groups derived from the key by an expression (substr takes start and END) that is not monotone in the key:
 		// the groups are first met in an order that is not their sorted order
 		perm := make([]int, p.r)
 		for i := range perm {
@@ -209,7 +216,7 @@ func c08Build(r *Rng, p gridPt) *Scenario {
 				}
 			}
 		}
-		lc.Base = "select substr(key, 8, 5) as g, count(1) as c where key ^= 'k' group by g order by g" + pick(r, []string{"", " asc", " desc"})
+		lc.Base = "select substr(key, 8, 13) as g, count(1) as c where key ^= 'k' group by g order by g" + pick(r, []string{"", " asc", " desc"})
 		lc.OrderCols = []int{0}
 	case "aggregate-all":
 		// no GROUP BY: the unlimited result is one row (none when nothing passes)
@@ -393,6 +400,9 @@ func runC08(sc *Scenario, st *Stats) []Violation {
 	if U.Failed() {
 		st.Inc("unlimited_failed")
 		return nil
+	}
+	if len(U.Rows) > 0 {
+		st.Inc("judged_nonempty:" + lc.Family)
 	}
 	if L.Failed() {
 		return mk("limited-failed", fmt.Sprintf("the unlimited statement completed with %d rows but the limited one failed: %s%s%s stepcap=%v", len(U.Rows), L.BuildErr, L.Err, L.Panic, L.StepCap))
